@@ -322,6 +322,53 @@ pub fn run(run: &mut Run) {
     }
     let n3 = configs.len() - n1 - n2;
     let (ex, pts, capped, maxo) = run_configs(run, "C02", &setup, &configs, &extra);
+    // (d) the snapshot (carried out by the declutter timer's thread) racing one client: an acknowledged write
+    // must not be lost to what the snapshot captured before it. File writes are scheduling points here.
+    let (ex, pts, capped) = {
+        crate::ilv::SYSCALL_POINTS.store(true, std::sync::atomic::Ordering::SeqCst);
+        let mut totals = (ex, pts, capped);
+        let inits: Vec<(&str, Vec<String>)> = vec![
+            ("key never persisted", vec!["set k 1".into(), "set k 1".into(), "snapshot false t".into()]),
+            ("key persisted, changed since", vec!["set k 1".into(), "snapshot false t".into(), RUN_SNAPSHOT.into(), "set k 1".into(), "snapshot false t".into()]),
+        ];
+        let mut n4 = 0;
+        for (_name, init) in inits.iter() {
+            let setup_s = Setup { strategy: "none", init: init.clone(), session_init: (0..2).map(|_| vec!["use-db t tok".to_string()]).collect(), check_replica: false };
+            // what the snapshot captures: the key as it is when the threads start
+            let captured = {
+                let (w0, _s) = build(&setup_s);
+                let c = final_view(&w0.node, "t").get("k").cloned();
+                w0.node.remove_dir();
+                c
+            };
+            for w in ["set k 10".to_string(), "increment k".to_string(), "remove k".to_string(), format!("set-safe k {} s0", base)] {
+                let programs = vec![vec![RUN_SNAPSHOT.to_string()], vec![w]];
+                let seq = sequential_outcomes(&setup_s, &programs);
+                let captured = captured.clone();
+                // one named clause for the outcome the pinned tree shows (a listed finding), linearizability for everything else
+                let judge = move |ops: &[OpRec], fin: &FinalView, _: &[String]| -> Option<(String, String)> {
+                    let acked = ops.iter().any(|o| o.tid == 1 && o.resp == "Ok");
+                    let describe = || format!("{:?} final k = {:?}, the snapshot had captured {:?}", ops.iter().map(|o| format!("t{} `{}` -> {}", o.tid, o.line, o.resp)).collect::<Vec<_>>(), fin.get("k"), captured);
+                    if acked && fin.get("k") == captured.as_ref() && captured.is_some() {
+                        return Some(("acknowledged-write-lost-to-a-concurrent-snapshot".into(), describe()));
+                    }
+                    if !linearizable(&seq, ops, fin) {
+                        return Some(("not-linearizable".into(), format!("no sequential order of the snapshot and the command gives this: {}", describe())));
+                    }
+                    None
+                };
+                n4 += 1;
+                let (r, vs) = explore_programs("C02", &setup_s, &programs, if quick { 2 } else { 4 }, 100_000, Duration::from_secs(if quick { 10 } else { 200 }), &judge, false);
+                totals = (totals.0 + r.executions, totals.1 + r.points, totals.2 + r.capped as u64);
+                for v in vs {
+                    run.violate(v);
+                }
+            }
+        }
+        crate::ilv::SYSCALL_POINTS.store(false, std::sync::atomic::Ordering::SeqCst);
+        run.cov("ilv_snapshot_vs_writer", json!({"configs": n4, "preemption_bound": if quick { 2 } else { 4 }, "scheduling_points": "lock acquisitions + file writes"}));
+        totals
+    };
     run.cov("ilv_2x1", json!({"configs": n1, "preemption_bound": b1}));
     run.cov("ilv_2x2", json!({"configs": n2, "preemption_bound": b2}));
     run.cov("ilv_3x1", json!({"configs": n3, "preemption_bound": b3}));
